@@ -29,7 +29,7 @@ FP_SPEC = {"cloudsync/sync/state.py": [
     "SideState.__setattr__", "SideState._translate_exists", "SideState._set_exists", "SideState._set_mtime",
     "SideState.uncorrupt", "SideState.serialize", "SideState.deserialize", "SyncEntry.__init__", "SyncEntry.__setattr__",
     "SyncEntry.serialize", "SyncEntry.deserialize", "SyncEntry.__setitem__", "SyncState.__init__", "SyncState.updated",
-    "SyncState._change_path", "SyncState._update_kids", "SyncState._change_oid", "SyncState.get_kids", "SyncState.get_all",
+    "SyncState._change_path", "SyncState._update_kids", "SyncState._update_kids_of", "SyncState._change_oid", "SyncState.get_kids", "SyncState.get_all",
     "SyncState.lookup_oid", "SyncState.lookup_path", "SyncState.storage_commit", "SyncState._storage_update",
     "SyncState.update", "SyncState.update_entry", "SyncState.mark_changed"],
     "cloudsync/types.py": ["OType", "IgnoreReason"],
@@ -857,6 +857,22 @@ def replay_int_key(R):
         "rows after reload": len(d.get(TAG, {})), "lookup_oid(LOCAL,'a') after reload": repr(st2.lookup_oid(0, "a"))}
 
 
+def replay_narrower(R):
+    """live pending set not contained in the reloaded one (Lean: pending_set_after_reload_narrower): a stamp on an id-less
+    side, then the other side gets an id (`_change_oid` makes the entry pending; the loader does not)"""
+    ms = R.MockStorage({})
+    st = fresh_state(R, ms)
+    e = R.SyncEntry(st, R.OType("file"))
+    e[0].changed = 5
+    e[1].oid = "b"
+    st.storage_commit()
+    live = len(st._changeset_storage)
+    st2 = fresh_state(R, ms)
+    rel = len(st2._changeset_storage)
+    return live == 1 and rel == 0 and not e.is_trash and len(ms.read_all(TAG)) == 1, {
+        "ops": ["new file", "ent[0].changed=5", "ent[1].oid='b'", "storage_commit", "reload"], "pending": {"live": live, "reloaded": rel}}
+
+
 def replay_corrupt_fact(R):
     """model fact (not a finding): the CORRUPT marker alone does not mark dirty (Lean: corrupt_mark_alone_not_persisted)"""
     d = {}
@@ -877,6 +893,7 @@ KNOWN = {
     "reload-pending-set-differs": lambda R, tmp: replay_pending(R),
     "stale-storage-id-after-row-delete": lambda R, tmp: replay_stale_id(R, tmp),
     "dict-hash-nonstring-key-row-dropped-on-load": lambda R, tmp: replay_int_key(R),
+    "pending-set-after-reload-narrower": lambda R, tmp: replay_narrower(R),
 }
 
 # the same sequences, through the correspondence (corpus: runs first)
@@ -890,6 +907,9 @@ CORPUS = [
     ["reset mock", "new file", "ws 0 0 oid S97", "ws 0 0 exists Eexists", "commit", "ws 0 0 exists Ecorrupt", "commit", "dump",
      "ws 0 0 exists Etrashed", "dump", "ws 0 0 hash B01", "dump", "commit", "dump"],
     ["reset mock", "new file", "ws 0 0 changed I5", "ws 0 1 changed I7", "ws 0 0 changed I9", "dump"],
+    ["reset sqlite", "new file", "ws 0 0 changed I5", "ws 0 1 oid S98", "commit", "dump", "reload", "dump"],
+    ["reset mock", "new dir", "ws 0 0 oid S97", "ws 0 0 path S47.97", "new dir", "ws 1 0 oid S98", "ws 1 0 path S47.97.47.98",
+     "ws 0 0 path S47.97.47.98.47.99", "dump", "ws 1 0 path S47.97", "dump", "commit", "dump"],
 ]
 
 
@@ -1666,10 +1686,11 @@ PINNED_FP = {
  "cloudsync/sync/state.py:SyncEntry.serialize": "b48a25b9869827d8",
  "cloudsync/sync/state.py:SyncEntry.deserialize": "5db0ed269f6f493b",
  "cloudsync/sync/state.py:SyncEntry.__setitem__": "0b1857a6cfae1665",
- "cloudsync/sync/state.py:SyncState.__init__": "ff2c80e5fc942d38",
+ "cloudsync/sync/state.py:SyncState.__init__": "2bd3d65267cb9e3e",
  "cloudsync/sync/state.py:SyncState.updated": "db826802657fd707",
  "cloudsync/sync/state.py:SyncState._change_path": "48476ce0c5af7de5",
- "cloudsync/sync/state.py:SyncState._update_kids": "55457724333d65e8",
+ "cloudsync/sync/state.py:SyncState._update_kids": "f769ceba63e5d490",
+ "cloudsync/sync/state.py:SyncState._update_kids_of": "6c0864f9638f48ce",
  "cloudsync/sync/state.py:SyncState._change_oid": "8c6fcbc68c25a6c1",
  "cloudsync/sync/state.py:SyncState.get_kids": "77ced86b1649c2f6",
  "cloudsync/sync/state.py:SyncState.get_all": "5f9264305c04de2d",
